@@ -91,6 +91,48 @@ example : AllDelivered cfgAB sSS := by
     · have : sSS.inflight = [x2'] := by decide
       rw [this]; intro e he; simp at he; subst he; decide
 
+/-! ### maintenance releases a job only after everything on its descriptor was read -/
+
+/-- **release rule** (`maintenanceJob`): in every history covered by `no_loss_partial`, whenever the
+    release of a job is enabled — maintenance found `stat.Size() == offset` on the descriptor it holds
+    and nothing of the source is in flight — every admitted complete line of the file has been acked.
+    (With unread bytes the op is not enabled: the code resumes the job instead, whatever file its name
+    leads to by now. A file renamed out of the watched pattern or unlinked right after an append is
+    therefore still read to its end.) -/
+theorem release_after_all_read (cfg : Cfg) (ops : List Op) (s s' : State) (i : Nat) (f : FileSt)
+    (hrun : TS.run (step? cfg) init ops = some s) (hnt : NoTruncate ops)
+    (hcov : AtCrashes cfg (CrashCovered cfg) init ops)
+    (hf : s.files i = some f) (hstep : step? cfg s (.forget i) = some s') :
+    ∀ l ∈ lines f, cfg.accept l.2 = true → Covers s.acked i l := by
+  have hinv := inv_run (inv_init cfg) hnt hcov hrun
+  simp only [step?] at hstep
+  split at hstep
+  · split at hstep
+    · rename_i f' j hf' hj
+      rw [hf] at hf'; cases hf'
+      split at hstep
+      · rename_i hc
+        intro l hl hacc
+        exact coversG_all.1 (forget_all_acked hinv hf hj hc.1 hc.2 l hl hacc)
+      · cases hstep
+    · cases hstep
+  · cases hstep
+
+/-- non-vacuity: the release is enabled once a1 a2 are read, acked and committed … -/
+example : (step? cfgAB sRel (.forget 1)).isSome = true ∧ Covers sRel.acked 1 (4, [97, 10]) := by
+  have hrun : TS.run (step? cfgAB) init relOps = some sRel := by
+    rw [run_eq_S relOps skipInv_init]; simp [sRel]
+  have hs : (step? cfgAB sRel (.forget 1)).isSome = true := by decide
+  obtain ⟨s', hs'⟩ := Option.isSome_iff_exists.1 hs
+  refine ⟨hs, release_after_all_read cfgAB relOps sRel s' 1 ⟨0, fileA⟩ hrun (by unfold NoTruncate; decide)
+    (atCrashes_of_crashStates relOps skipInv_init (by
+      intro sc hsc
+      have : crashStates cfgAB init relOps = [] := rfl
+      rw [this] at hsc; cases hsc)) rfl hs' (4, [97, 10]) (by decide) rfl⟩
+
+/-- … and it is not enabled while an appended line is unread (the job is resumed instead) -/
+example : step? cfgAB sRel2 (.forget 1) = none := by decide
+
 /-! ### the full statement is false of the unchanged code -/
 
 /-- **counterexample to `NoLoss`**: with several streams in one file the saved offsets list only the
@@ -172,9 +214,7 @@ theorem truncation_restart (cfg : Cfg) (st0 : Stream) (hst : ∀ d, cfg.streamOf
   obtain ⟨hseq, hskip⟩ := seqInv_run hst ops skipInv_init (seqInv_init st0) hrun
   refine ⟨detect_truncation hr hf hj (hskip i j hj) htr, by simp [afterDetection], ?_⟩
   intro e he hei
-  have hle : e.seq ≤ j.lastSeq := by
-    have := hseq.infl e he
-    rw [hei, ← hseq.last i j hj] at this; exact this
+  have hle : e.seq ≤ j.lastSeq := hseq.infl e he j (by rw [hei]; exact hj)
   exact stale_commit_ignored (afterDetection s i j) e
     ⟨⟨0, [], false⟩, j.offsets.map (fun p => (p.1, 0)), j.lastSeq, j.lastSeq⟩ (by simp [afterDetection, hei]) hle
 
